@@ -7,7 +7,11 @@ FACTS = [("QuartzModel.Theorems.Facts", t) for t in [
 # the hand-written cron model IS the code: definitions translated from internal/csm + quartz/csm.go on every run (harness/cmd/gotolean ->
 # Generated/Trans.lean) are proved equal to the model's functions for all inputs
 TRANS = [("QuartzModel.Theorems.MissingTrans", "Trans.missing_none")] + \
-        [("QuartzModel.Theorems.TransCsm", "TransCsm." + t) for t in ["trans_commonValid", "trans_commonNext", "trans_commonReset", "trans_commonFindForward", "trans_resultCodes"]]
+        [("QuartzModel.Theorems.TransCsm", "TransCsm." + t) for t in ["trans_commonValid", "trans_commonNext", "trans_commonReset", "trans_commonFindForward", "trans_resultCodes"]] + \
+        [("QuartzModel.Proofs.TransDayLemmas", "TransDay." + t) for t in ["trans_dayIsValid", "trans_dayNext", "trans_dayFindForward", "trans_dayReset"]] + \
+        [("QuartzModel.Theorems.TransMachine", "TransCsm." + t) for t in ["trans_resetFrom", "trans_overflowFrom", "trans_advanceInvalid", "trans_findForward", "trans_newCSMFromFields"]] + \
+        [("QuartzModel.Theorems.TransFinal", "TransCsm." + t) for t in ["trans_nothing_missing", "trans_dayEquiv", "trans_nextTriggerTime", "trans_nextTriggerTime_values",
+                                                                       "nextFireT_eq_nextFire", "C01_sound_trans", "C02_minimal_trans", "C06_total_trans"]]
 
 ODO = [("QuartzModel.Proofs.Odometer", t) for t in ["Odo.findForward_spec", "Odo.loop_fuel", "Odo.μ6_measure"]]
 
